@@ -22,7 +22,7 @@ ASSUMPTIONS = ["tolerance = the format's resolution + a few ulp, so rounding and
                "non-canonical fields such as 1:60 are accepted; exponent notation and non-finite values are not demanded",
                "a leading '+' is not demanded of the parser (only what the library itself renders with the + flag)"]
 QUICK_SHARDS = 2
-REQUIRED_EVENTS = ["renderings", "validator_checks", "parse_checks", "grid_points", "device_layer_renderings", "device_layer_histories", "renderings_of_decimal_fraction_or_subclass_values", "client_number_texts_stored", "python_numbers_written_in_process"]
+REQUIRED_EVENTS = ["renderings", "validator_checks", "parse_checks", "grid_points", "device_layer_renderings", "device_layer_histories", "device_layer_values_of_huge_magnitude", "renderings_of_decimal_fraction_or_subclass_values", "client_number_texts_stored", "python_numbers_written_in_process"]
 
 SEXA = [3, 5, 6, 8, 9]
 
@@ -349,6 +349,10 @@ def device_layer(ctx, i, steps):
         v = rng.choice(special_values(rng, fmts[k])[:41]) if rng.random() < 0.4 else round(rng.uniform(-400, 400), rng.choice([0, 2, 4, 7]))
         if "d" in fmts[k] and rng.random() < 0.5:
             v = int(v)
+        if trng.random() < 0.06:
+            # magnitudes whose plain (non-exponent) rendering runs to 60..300 digits: "%f" % 1e80 is a perfectly good INDI number
+            v = trng.choice([1e57, -3.5e80, 1e120, -1e300, 2.5e64])
+            ctx.count("device_layer_values_of_huge_magnitude")
         store = rng.choice(STORES)
         history.append((store, k, v))
         ctx.seen("stores", store)
@@ -357,61 +361,71 @@ def device_layer(ctx, i, steps):
             v = typed(v)
             handed[k] = float(v)
             history[-1] = (store, k, repr(v))
-        if store == "assign":
-            elem[k].value = v
-        elif store == "client-write":
-            # any INDI number notation may be sent to any format; the element must then hold the value the text denotes
-            text = rng.choice([repr(float(v)), repr(float(v)), "%.4f" % v, "%d:%02d:%02d" % (abs(int(v)), rng.randrange(60), rng.randrange(60)),
-                               "-0.5", "2.7", "1e-1", "-%d %02d" % (abs(int(v)), rng.randrange(60)), "%d;%02d.5" % (abs(int(v)), rng.randrange(60))])
-            router.process_message(M.NewNumberVector(device="DEV", name="NUM", children=(one_parts.OneNumber(name=f"N{k}", value=text),)), sender=rec)
-            denoted = R.parse(text)
-            stored = elem[k]._value
-            ctx.count("client_number_texts_stored")
-            if stored is None or isinstance(stored, bool) or not abs(stored - denoted) <= 1e-9 * max(1.0, abs(denoted)):
-                ctx.violate(f"element-stores-other-value-than-the-text-denotes:{fmt_class(fmts[k])}",
-                            f"element N{k} (format {fmts[k]!r}) was sent {text!r} (= {denoted!r}) and holds {stored!r}",
-                            {"mode": "device", "i": i, "steps": steps}, {"history": history[-8:]})
-                return
-        elif store == "in-process-client-write":
-            # a snooping driver's client hands the router a message OBJECT whose oneNumber carries a Python number, not text
-            pv = rng.choice([0, 0.0, -0.0, 1, -1, 0.5, v, int(v)])
-            cel = snoop.get_device("DEV").get_vector("NUM").get_element(f"N{k}")
-            cel.value = pv
-            snoop.get_device("DEV").get_vector("NUM").submit()
-            stored = elem[k]._value
-            ctx.count("python_numbers_written_in_process")
-            if stored is None or isinstance(stored, bool) or not abs(stored - pv) <= 1e-9 * max(1.0, abs(pv)):
-                ctx.violate(f"element-stores-other-value-than-the-number-sent:{'zero' if pv == 0 else 'nonzero'}",
-                            f"element N{k} (format {fmts[k]!r}) was sent the Python number {pv!r} by an in-process client and holds {stored!r}",
-                            {"mode": "device", "i": i, "steps": steps}, {"history": history[-8:]})
-                return
-        elif store == "reset_value":
-            elem[k].reset_value(v)
-        elif store == "read-handler-refresh":
-            hardware[f"N{k}"] = v
-        else:
-            elem[(k + 1) % 4].value = v
-        for how in rng.sample(RENDERS, rng.choice([1, 2, 2, 3])):
-            ctx.seen("renders", how)
-            del rec.received[:]
-            if how == "to_set_message":
-                msgs = [vec.to_set_message()]
-            elif how == "to_def_message":
-                msgs = [vec.to_def_message()]
-            elif how == "getProperties":
-                router.process_message(M.GetProperties(version="1.7", device="DEV"), sender=rec)
-                msgs = [m for m in rec.received if type(m).__name__ == "DefNumberVector"]
-            elif how == "state-change":
-                vec.state_ = rng.choice(["Ok", "Busy", "Idle", "Alert"])
-                msgs = [m for m in rec.received if type(m).__name__ == "SetNumberVector"]
+        def _do():
+            if store == "assign":
+                elem[k].value = v
+            elif store == "client-write":
+                # any INDI number notation may be sent to any format; the element must then hold the value the text denotes
+                text = rng.choice([repr(float(v)), repr(float(v)), "%.4f" % v, "%d:%02d:%02d" % (abs(int(v)), rng.randrange(60), rng.randrange(60)),
+                                   "-0.5", "2.7", "1e-1", "-%d %02d" % (abs(int(v)), rng.randrange(60)), "%d;%02d.5" % (abs(int(v)), rng.randrange(60))])
+                router.process_message(M.NewNumberVector(device="DEV", name="NUM", children=(one_parts.OneNumber(name=f"N{k}", value=text),)), sender=rec)
+                denoted = R.parse(text)
+                stored = elem[k]._value
+                ctx.count("client_number_texts_stored")
+                if stored is None or isinstance(stored, bool) or not abs(stored - denoted) <= 1e-9 * max(1.0, abs(denoted)):
+                    ctx.violate(f"element-stores-other-value-than-the-text-denotes:{fmt_class(fmts[k])}",
+                                f"element N{k} (format {fmts[k]!r}) was sent {text!r} (= {denoted!r}) and holds {stored!r}",
+                                {"mode": "device", "i": i, "steps": steps}, {"history": history[-8:]})
+                    return False
+            elif store == "in-process-client-write":
+                # a snooping driver's client hands the router a message OBJECT whose oneNumber carries a Python number, not text
+                pv = rng.choice([0, 0.0, -0.0, 1, -1, 0.5, v, int(v)])
+                cel = snoop.get_device("DEV").get_vector("NUM").get_element(f"N{k}")
+                cel.value = pv
+                snoop.get_device("DEV").get_vector("NUM").submit()
+                stored = elem[k]._value
+                ctx.count("python_numbers_written_in_process")
+                if stored is None or isinstance(stored, bool) or not abs(stored - pv) <= 1e-9 * max(1.0, abs(pv)):
+                    ctx.violate(f"element-stores-other-value-than-the-number-sent:{'zero' if pv == 0 else 'nonzero'}",
+                                f"element N{k} (format {fmts[k]!r}) was sent the Python number {pv!r} by an in-process client and holds {stored!r}",
+                                {"mode": "device", "i": i, "steps": steps}, {"history": history[-8:]})
+                    return False
+            elif store == "reset_value":
+                elem[k].reset_value(v)
+            elif store == "read-handler-refresh":
+                hardware[f"N{k}"] = v
             else:
-                handed.pop((k + 2) % 4, None)
-                elem[(k + 2) % 4].value = round(rng.uniform(-90, 90), 3)
-                msgs = [m for m in rec.received if type(m).__name__ == "SetNumberVector"]
-            history.append((how,))
-            for m in msgs:
-                if not judge(m.children, how):
-                    return
+                elem[(k + 1) % 4].value = v
+            for how in rng.sample(RENDERS, rng.choice([1, 2, 2, 3])):
+                ctx.seen("renders", how)
+                del rec.received[:]
+                if how == "to_set_message":
+                    msgs = [vec.to_set_message()]
+                elif how == "to_def_message":
+                    msgs = [vec.to_def_message()]
+                elif how == "getProperties":
+                    router.process_message(M.GetProperties(version="1.7", device="DEV"), sender=rec)
+                    msgs = [m for m in rec.received if type(m).__name__ == "DefNumberVector"]
+                elif how == "state-change":
+                    vec.state_ = rng.choice(["Ok", "Busy", "Idle", "Alert"])
+                    msgs = [m for m in rec.received if type(m).__name__ == "SetNumberVector"]
+                else:
+                    handed.pop((k + 2) % 4, None)
+                    elem[(k + 2) % 4].value = round(rng.uniform(-90, 90), 3)
+                    msgs = [m for m in rec.received if type(m).__name__ == "SetNumberVector"]
+                history.append((how,))
+                for m in msgs:
+                    if not judge(m.children, how):
+                        return False
+            return True
+        try:
+            if not _do():
+                return
+        except Exception as e:
+            huge = isinstance(v, (int, float)) and abs(v) >= 1e50
+            ctx.violate(f"device-layer-operation-raises:{type(e).__name__}:{'huge-magnitude' if huge else 'ordinary-value'}",
+                        f"{history[-1]} on element N{k} (format {fmts[k]!r}) raised {e!r}", {"mode": "device", "i": i, "steps": steps}, {"history": history[-8:]})
+            return
     ctx.count("device_layer_histories")
     ctx.case_fast(("device", i))
 
